@@ -1753,7 +1753,7 @@ def corpus_programs():
 
 def run(ctx, out):
     stats = {}
-    n_models = ctx.n(70, 1000)
+    n_models = ctx.n(55, 1000)
     n_triggers = ctx.n(2, 12)
     n_paths = ctx.n(1500, 40000)
     n_docs = ctx.n(1500, 40000)
